@@ -461,6 +461,10 @@ func (e *Exec) cutLoop(f *frame, li *loopInfo, st *State) {
 		nv := e.freshVal(st, f.prefix+phi.Name()+".loop", phi.Type())
 		f.vals[phi] = nv
 	}
+	// every object that exists at the loop head (refs <= the head's watermark) holds well-typed
+	// values in every heap, also in heaps the loop does not write (objects allocated by earlier
+	// iterations or calls lie above the watermark those heaps' invariants were stated for)
+	e.reassertHeapInvs(st)
 	// 3. assume invariants
 	envH := e.loopEnv(f, li, st)
 	for _, inv := range invs {
